@@ -139,6 +139,7 @@ muts=[
  ('M22 Close sets closed only after Broadcast', RB, """	r.closed = true
 
 	// discard""", """	// discard"""),
+ ('M23 parked flag read before the mutex lets Push skip Broadcast (lost wake-up, window ~1 in 50k-100k pushes)', RB, None, None),
 ]
 env=dict(os.environ,GOFLAGS='-mod=mod',GOPROXY='off',CGO_ENABLED='0')
 sel=sys.argv[1:] 
@@ -149,8 +150,18 @@ for name,f,old,new in muts:
     if sel and tag not in sel: continue
     for g in (RB,AP): shutil.copy('/repo/'+g, M+'/repo/'+g)
     src=open(M+'/repo/'+f).read()
-    assert old in src, name
-    open(M+'/repo/'+f,'w').write(src.replace(old,new,1))
+    if old is None:  # M23: several coordinated edits
+        for o,n in [('	closed     bool\n}','	closed     bool\n	parked     atomic.Bool\n}'),
+                    ('import (\n	"fmt"\n	"sync"\n)','import (\n	"fmt"\n	"sync"\n	"sync/atomic"\n)'),
+                    ('func (r *RingBuffer) Push(data any) bool {\n	r.mutex.Lock()\n','func (r *RingBuffer) Push(data any) bool {\n	parked := r.parked.Load()\n	r.mutex.Lock()\n'),
+                    ('	r.mutex.Unlock()\n\n	r.cond.Broadcast()\n\n	return true','	r.mutex.Unlock()\n\n	if parked {\n		r.cond.Broadcast()\n	}\n\n	return true'),
+                    ('		r.cond.Wait()\n','		r.parked.Store(true)\n		r.cond.Wait()\n		r.parked.Store(false)\n')]:
+            assert o in src, (name,o)
+            src=src.replace(o,n,1)
+        open(M+'/repo/'+f,'w').write(src)
+    else:
+        assert old in src, name
+        open(M+'/repo/'+f,'w').write(src.replace(old,new,1))
     # facts
     shutil.rmtree(M+'/facts_out',ignore_errors=True); os.makedirs(M+'/facts_out')
     r=subprocess.run([M+'/extract','-repo',M+'/repo','-out',M+'/facts_out','-specs','/verif/facts','-json',M+'/facts.json'],capture_output=True,text=True)
@@ -187,3 +198,4 @@ for g in (RB,AP): shutil.copy('/repo/'+g, M+'/repo/'+g)
 #  M18 wrong size field -> ring-panic                             M19 capacity halved -> async-refusal
 #  M20 running not set -> async-close-early                       M21 racy split of Push's critical section -> conc-not-linearizable, conc-refused-not-full (sequentially invisible)
 #  M22 closed never set -> ring-pull-after-close, async-close-no-ring-close
+#  M23 parked-flag lost wake-up -> ring-lost-wakeup from the ping-pong liveness workload (round 45951 / 92926 / 153221 for seeds 2 / 3 / 1; sequentially invisible)
